@@ -303,6 +303,31 @@ def the_synthdef():
     return _SD
 
 
+def drive(call):
+    """run `call`; every routine it (or a routine it starts) plays is captured instead of being scheduled and is then run
+    to its end from here, each resumption standing for the elapsed wait / the server's reply"""
+    from sc3.base.stream import Routine
+    queue = []
+    orig = Routine.play
+
+    def play(self, clock=None, quant=None):
+        queue.append(self)
+    Routine.play = play
+    try:
+        res = call()
+        while queue:
+            r = queue.pop(0)
+            for _ in range(100000):
+                check_budget(0)
+                try:
+                    next(r)
+                except StopIteration:
+                    break
+        return res
+    finally:
+        Routine.play = orig
+
+
 def exec_op(w, op):
     o = op['op']
     N, B, U = w.nodes, w.bufs, w.buses
@@ -420,6 +445,13 @@ def exec_op(w, op):
         B[op['b']].sine3(vals(w, op['freqs']), vals(w, op['amps']), vals(w, op['phases']), op['normalize'], op['wavetable'], op['clear'])
     elif o == 'b_normalize':
         B[op['b']].normalize(val(w, op['max']), op['wavetable'])
+    elif o == 'b_send_list':
+        drive(lambda: B[op['b']].send_list(vals(w, op['values']), op['start'], 0))
+    elif o == 'b_new_send_list':
+        B.append(None)
+        B[-1] = drive(lambda: Buffer.new_send_list(vals(w, op['values']), op['channels'], w.srv, 0))
+    elif o == 'b_get_to_list':
+        drive(lambda: B[op['b']].get_to_list(lambda *a: None, op['index'], op['count'], 0))
     elif o == 'b_copy_data':
         B[op['b']].copy_data(B[op['dst']], op['dst_start'], op['start'], op['n'])
     # ---- buses
